@@ -188,6 +188,43 @@ theorem isQuotedLiteral_quoted (q : Char) (body : Str) :
   simp only [List.nil_append, List.length_nil, Nat.zero_add] at h3
   simp only [isQuotedLiteral, h1, h2, Bool.and_self, Bool.not_true, Bool.false_eq_true, if_false, h3]
 
+/-- the complete specification of `is_quoted_literal(s, q)` for a one-character quote: the empty text is no literal, the quote
+    character alone is one (the loop has nothing to look at), a longer text is one exactly when it starts and ends with the
+    quote and every quote in between stands behind a backslash -/
+def quotedSpec (q : Char) : Str → Bool
+  | [] => false
+  | [c] => c == q
+  | c :: d :: rest => c == q && (d :: rest).getLast (by simp) == q && escapedBody q q (d :: rest).dropLast
+
+theorem endsWith_snoc_ne (s : Str) (c q : Char) (h : c ≠ q) : Str.endsWith (s ++ [c]) [q] = false := by
+  simp [Str.endsWith, Str.startsWith, h]
+
+theorem isQuotedLiteral_spec (q : Char) (s : Str) : isQuotedLiteral s [q] = .ok (quotedSpec q s) := by
+  match s with
+  | [] => simp [isQuotedLiteral, Str.startsWith, quotedSpec]
+  | [c] =>
+    by_cases hc : c = q
+    · subst hc
+      simp [isQuotedLiteral, Str.startsWith, Str.endsWith, quotedSpec, iqlLoop]
+    · simp [isQuotedLiteral, Str.startsWith, quotedSpec, hc]
+  | c :: d :: rest =>
+    have hsplit : d :: rest = (d :: rest).dropLast ++ [(d :: rest).getLast (by simp)] :=
+      (List.dropLast_concat_getLast (by simp)).symm
+    generalize hbody : (d :: rest).dropLast = body at hsplit
+    generalize hlast : (d :: rest).getLast (by simp) = last at hsplit
+    simp only [quotedSpec, hbody, hlast]
+    rw [hsplit]
+    by_cases hc : c = q
+    · by_cases hl : last = q
+      · subst hc; subst hl
+        rw [isQuotedLiteral_quoted]
+        simp
+      · have he : Str.endsWith (c :: (body ++ [last])) [q] = false := by
+          have := endsWith_snoc_ne (c :: body) last q hl
+          simpa using this
+        simp [isQuotedLiteral, he, hl]
+    · simp [isQuotedLiteral, Str.startsWith, hc]
+
 /-! ### `Param.var_type_origin` -/
 
 /-- what may follow the base name: nothing, template arguments `<…>` (with anything behind), a `*` or `&` -/
